@@ -367,6 +367,12 @@ def run(tier: str) -> int:
     lhigh = 80 if tier == "thorough" else 40
     nh = 2000 if tier == "thorough" else 160
     _high(rep, J, gu, lt, lhigh, nh, rng)
+    # "for every maximum degree": one pass far beyond the degrees the test-suite reaches (its maximum is
+    # l_max = 100), few angles incl. the structured ones (equator, near-pole, poles); a float64
+    # accumulator in the recursion overflows near l = 150 and would go unnoticed below that
+    lvery = 260 if tier == "thorough" else 200
+    _high(rep, J, gu, lt, lvery, 24 if tier == "thorough" else 10, rng)
+    rep.set("l_very_high", lvery)
 
     # ---- cart -> sph ----------------------------------------------------------------------------
     _cart(rep, gu, em, tier, rng)
